@@ -62,6 +62,9 @@ TONIC = {"en": "me", "fr": "moi"}
 SUBJPRO = {"en": "I", "fr": "je"}
 BE = {"en": "be", "fr": "être"}
 SEE = {"en": "see", "fr": "voir"}
+# bare tonic / personal pronouns (no option at all): what they denote comes from their declension table
+BARE = {"en": ["him", "her", "it", "us", "you", "them"],
+        "fr": ["moi", "toi", "lui", "elle", "nous", "vous", "eux", "elles"]}
 MARKS = ["!", ";", ",", ":", "."]
 # verb-before-subject clauses: (variant, verb) per language.  plain: S(VP(V), CP) ; here: S(Adv, VP(V), CP) ;
 # pc: French compound past with auxiliary être (the participle agrees) ; attr: S(VP(V être, A), CP) ;
@@ -96,6 +99,55 @@ def after_table(lang):
                 res[m] = r["b"] + m + r["a"]
         _STATE[key] = res
     return _STATE[key]
+
+
+def _data(lang):
+    key = ("data", lang)
+    if key not in _STATE:
+        d = os.path.join(core.REPO, "src", "pyrealb", "data")
+        _STATE[key] = (json.load(open(os.path.join(d, "lexicon-%s.json" % lang), encoding="utf-8")),
+                       json.load(open(os.path.join(d, "rules-%s.json" % lang), encoding="utf-8")))
+    return _STATE[key]
+
+
+def bare_table(lang, lemma):
+    """(table id, rows) of a pronoun — the table id is the only thing taken from the lexicon entry"""
+    lex, rules = _data(lang)
+    tab = lex[lemma]["Pro"]["tab"]
+    return tab, rules["declension"][tab]
+
+
+def bare_features(lang, lemma):
+    """(pe, plural?, gender) of a bare pronoun as its DECLENSION TABLE says: the row whose form is the lemma"""
+    tab, d = bare_table(lang, lemma)
+    ending = d["ending"]
+    stem = lemma[:len(lemma) - len(ending)] if ending and lemma.endswith(ending) else lemma
+    for r in d["declension"]:
+        if stem + r["val"] == lemma:
+            g = r.get("g")
+            return r.get("pe", 3), r.get("n") == "p", g if g in ("m", "f") else None
+    raise core.Infra("no row of table %s realizes %r" % (tab, lemma))
+
+
+def bare_lexicon_gap(lang, lemma):
+    """features on which the lexicon entry (+ defaults, as Terminal.setLemma computes them) disagrees with the row of
+    the declension table that spells the lemma — used only to LABEL a failure, never to decide it"""
+    lex, _ = _data(lang)
+    e = lex[lemma]["Pro"]
+    tab, d = bare_table(lang, lemma)
+    rows = d["declension"]
+    pes = [r.get("pe") for r in rows]
+    upe = pes[0] if pes and pes[0] is not None and all(x == pes[0] for x in pes) else None
+    epe = e.get("pe", upe if (upe is not None and upe != 3) else 3)
+    pe, pl, g = bare_features(lang, lemma)
+    gaps = []
+    if epe != pe:
+        gaps.append("%s.pe" % tab)
+    if (e.get("n", "s") == "p") != pl:
+        gaps.append("%s.n" % tab)
+    if lang == "fr" and g is not None and e.get("g", "m") != g:
+        gaps.append("%s.g" % tab)
+    return gaps
 
 
 # --------------------------------------------------------------------------------------------- the real library
@@ -158,6 +210,8 @@ def build_member(P, lang, nota, m, rel, ctx, with_a=True):
         if m.get("g"):
             p.g(m["g"])
         o = p if nota == "cp" else dep(p)
+    elif t == "bpro":
+        o = P.Pro(m["lem"]) if nota == "cp" else dep(P.Pro(m["lem"]))
     elif t == "adj":
         a = P.A(ADJS[lang][m["w"]])
         if ctx and ctx.get("explicit"):
@@ -582,6 +636,8 @@ def prop_features(lang, m):
         return 3, False, None, True
     if t == "pro":
         return int(m["pe"]), m.get("n") == "p", m.get("g"), True
+    if t == "bpro":
+        return bare_features(lang, m["lem"]) + (True,)
     if t == "nest":
         fs = [prop_features(lang, k) for k in m["ms"]]
         return resolve(lang, m["conj"], fs)
@@ -643,6 +699,9 @@ def agree_cause(case):
         return "plain"
     if has_nested(case):
         return "single-nested" if n == 1 else "nested-coordination-not-counted"
+    gaps = sorted(g for m in case["members"] if m["t"] == "bpro" for g in bare_lexicon_gap(case["lang"], m["lem"]))
+    if gaps:
+        return "bare-pronoun-" + gaps[0]
     return "plain"
 
 
@@ -920,6 +979,8 @@ def gen_member(rng, lang, kinds, depth=0, strpe=False, nota="cp"):
         m["n"] = rng.choice([None, "s", "p", "p"])
     elif t == "q":
         m["w"] = rng.randrange(len(QS))
+    elif t == "bpro":
+        m["lem"] = rng.choice(BARE[lang])
     elif t == "pro":
         pe = rng.choice([1, 2, 3])
         m["pe"] = str(pe) if strpe and rng.random() < 0.5 else pe
@@ -931,7 +992,7 @@ def gen_member(rng, lang, kinds, depth=0, strpe=False, nota="cp"):
         m["w"] = rng.randrange(len(VPVERBS[lang]))
     elif t == "nest":
         sub = [k for k in kinds if k != "nest"]
-        nominal = [k for k in sub if k in ("np", "n", "q", "pro")]
+        nominal = [k for k in sub if k in ("np", "n", "q", "pro", "bpro")]
         sub = nominal if nominal else [rng.choice(sub)]
         m["conj"] = rng.choice(CONJ[lang][:2] * 3 + [None])
         if m["conj"] is None and rng.random() < 0.7:
@@ -946,7 +1007,7 @@ def gen_case(rng, lang, nota, role, n, flavour="plain"):
     conjs = CONJ[lang]
     case["conj"] = rng.choice([conjs[0], conjs[0], conjs[1], conjs[1], conjs[2], None, None])
     if role in ("subj", "subjattr", "vsubj", "obj", "alone"):
-        kinds = ["np", "np", "np", "pro", "pro", "n", "q"]
+        kinds = ["np", "np", "np", "pro", "pro", "n", "q", "bpro", "bpro"]
         if flavour in ("nested", "mixed"):
             kinds += ["nest", "nest", "nest"]
         if flavour == "mixed" and role in ("subj", "alone") and (nota == "cp" or role == "subj"):
@@ -1039,6 +1100,13 @@ def witness_cases():
             res.append({"lang": lang, "nota": nota, "role": "attr", "verb": BE[lang], "conj": c[0],
                         "subj": {"t": "pro", "pe": 2, "n": "s", "g": "m"},
                         "members": [{"t": "adj", "w": 0}, {"t": "adj", "w": 1}, {"t": "adj", "w": 2}]})
+            # bare tonic pronouns: number / person come from the lexicon entry, the expectation from the declension table
+            for lem in BARE[lang]:
+                for conj in (c[1], None):
+                    res.append({"lang": lang, "nota": nota, "role": "subj", "verb": BE[lang], "conj": conj,
+                                "members": [np_(0), {"t": "bpro", "lem": lem}]})
+                    res.append({"lang": lang, "nota": nota, "role": "subj", "verb": v, "conj": conj,
+                                "members": [{"t": "bpro", "lem": lem}, {"t": "bpro", "lem": BARE[lang][1]}]})
             # the coordinated subject FOLLOWS its verb: the coordination must still be realized first
             for vs, verb in (VS[lang] if nota == "cp" else [("plain", VERBS[lang][0])]):
                 for conj, ms in ((c[0], [np_(0), np_(1)]), (c[1], [np_(1, "p"), pro(1)]), (c[0], [np_(1), np_(2), pro(2, "p", "f")])):
